@@ -1140,7 +1140,14 @@ class TenSym(PySym):
                 if m in cm and m not in recv.__dict__:
                     # a method of the modelled class: evaluated from its source with self bound to the model object
                     sub = TenSym(self.globals_env(), self.positive, self.funcs, parent=self)
-                    return sub.run_fn(cm[m], **dict({"self": recv}, **{cm[m].args.args[i + 1].arg: self.ex(a) for i, a in enumerate(n.args)}, **{k.arg: self.ex(k.value) for k in n.keywords if k.arg}))
+                    posv_ = self.call_args(n)
+                    pn_ = [a_.arg for a_ in cm[m].args.posonlyargs + cm[m].args.args][1:]
+                    if len(posv_) > len(pn_) and cm[m].args.vararg is None:
+                        raise Raised("the analysed path raises: TypeError (%s() takes %d positional arguments but %d were given)" % (m, len(pn_) + 1, len(posv_) + 1), "TypeError('arguments')")
+                    given_ = dict({"self": recv}, **dict(zip(pn_, posv_)), **{k.arg: self.ex(k.value) for k in n.keywords if k.arg})
+                    if cm[m].args.vararg is not None:
+                        given_[cm[m].args.vararg.arg] = tuple(posv_[len(pn_):])
+                    return sub.run_fn(cm[m], **given_)
                 f = getattr(recv, "_ctor", None) if m == "__class__" else getattr(recv, m, None)
                 if callable(f):
                     return f(*[self.pyval(self.ex(a)) for a in n.args], **{k.arg: self.pyval(self.ex(k.value)) for k in n.keywords if k.arg})
